@@ -475,6 +475,9 @@ func (r *Decoder) decodeElement(ectx evaluationContext, element jsonldinternal.E
 				// nectx.ActivePropertyRange = member.Name.SourceOffsets
 			}
 
+			// the position of the reverse property's key is not known; do not inherit the range of the
+			// property this node was found under (a list property's key for list items)
+			nectx.ActivePropertyRange = nil
 			nectx.Reverse = true
 
 			reverseValues, err := expandedAs[*jsonldinternal.ExpandedArray](reverseObject.Members[key], key)
